@@ -156,6 +156,9 @@ func selectSpecs(eng *Engine, pc *PropConfig) ([]*FuncSpec, error) {
 		if len(want) > 0 && !want[dn] {
 			continue
 		}
+		if len(want) == 0 && eng.requested != nil && !eng.requested[sp.PkgPath] {
+			continue
+		}
 		found[dn] = true
 		out = append(out, sp)
 	}
